@@ -10,8 +10,8 @@ from checks import callcommon, ctxcommon
 from framework import Case
 
 PROP = "C11"
-GENERATED = ['DtypeTables', 'Core', 'SrcHints', 'SrcDecorate', 'HintLoop', 'Wrapper', 'Classes', 'SrcExpand', 'Resolve']  # generated files this check's tie depends on
-LEAN_MODULES = ["Properties.C11", "Properties.Core", "Properties.Prov.Hints", "Properties.Prov.Decorate", "Properties.CoreHints", "Properties.CoreWrap", "Properties.CoreClasses", "Properties.Prov.Expand", "Properties.CoreResolve"]
+GENERATED = ['DtypeTables', 'Core', 'SrcHints', 'SrcDecorate', 'HintLoop', 'Wrapper', 'Classes', 'SrcExpand', 'Resolve', 'SrcSurface']  # generated files this check's tie depends on
+LEAN_MODULES = ["Properties.C11", "Properties.Core", "Properties.Prov.Hints", "Properties.Prov.Decorate", "Properties.CoreHints", "Properties.CoreWrap", "Properties.CoreClasses", "Properties.Prov.Expand", "Properties.CoreResolve", "Properties.Prov.Surface"]
 RULE = (
     "exhaustive over flat tuple hints of length 1..4 (quick) / 1..5 (thorough) with annotated / plain positions mixed (plain = `int` or `Annotated[int, 'count']`), as parameter and as "
     "return, each element conforming, violating its own literal, or violating a binding shared with another parameter (a), values of the "
@@ -38,7 +38,7 @@ def cases(tier, rng, run):
                         spec, good, badlit, badbind = ELEMS[k]
                         specs.append(spec)
                         if k == 2:
-                            vals.append(rng.choice(["X", "N"]))
+                            vals.append(rng.choice(["X", "N", "XT", "XE", "XA", "XL"]))   # (a plain position may hold anything, sequences of arrays included)
                             if fault_pos == i:
                                 ok = False
                             continue
@@ -83,6 +83,32 @@ def cases(tier, rng, run):
                     if fault_kind == "lit" and rng.random() < 0.3:
                         out.append(Case(f"CALL\tnt:pos\t-\t\t{first}\t{p}", f"nt{n}"))
                         out.append(Case(f"CALL\tdc:kw\t-\t\t{first}\t{p}", f"dc{n}"))
+    # TWO offending elements: the one at the earlier position is the one reported, whatever kind of fault each has — an earlier fault that
+    # only the shared bindings reveal (its axis contradicts `a` of the first parameter / a name repeated inside it) comes before a later
+    # one that the element alone reveals (dtype, rank, a literal axis): elements are checked position by position, in order
+    sym_bad = [("FloatTensor,0,a 2", "T,0:float32,4.2"), ("FloatTensor,0,b b", "T,0:float32,2.3"), ("IntTensor,0,a", "T,1:int32,5"), ("FloatTensor,0,a+1", "T,0:float32,3")]
+    str_bad = [("FloatTensor,0,a 2", "T,0:float32,3.5"), ("FloatTensor,0,a 2", "T,1:int32,3.2"), ("FloatTensor,0,a 2", "T,0:float32,3"), ("IntTensor,0,a", "T,0:float32,3"), ("FloatTensor,0,2 2", "T,0:float32,2.2.2")]
+    ok_el = ("FloatTensor,0,a 2", "T,0:float32,3.2")
+    first = "P|x|S|FloatTensor,0,a|T,2:float32,3"
+
+    def nm_of(name, i):
+        return name if i == 0 else f"{name}[{i}]"   # (the element at position 0 is reported under the bare name)
+
+    for n in (2, 3, 4):
+        for i in range(n):
+            for j in range(i + 1, n):
+                for (s1, v1), (s2, v2) in [*itertools.product(sym_bad, str_bad), *itertools.product(str_bad[:2], sym_bad[:2])]:
+                    specs, vals = [ok_el[0]] * n, [ok_el[1]] * n
+                    specs[i], vals[i], specs[j], vals[j] = s1, v1, s2, v2
+                    body = f"T|{';'.join(specs)}|U:{';'.join(vals)}"
+                    for line, nm in ((f"CALL\tfunc:pos\t-\t\t{first}\tP|t|{body}", nm_of("t", i)), (f"CALL\tfunc:kw\t-\t\t{first}\tR|{body}", nm_of("return", i)),
+                                     (f"CALL\tnt:pos\t-\t\t{first}\tP|t|{body}", nm_of("t", i)), (f"CALL\tdc:kw\t-\t\t{first}\tP|t|{body}", nm_of("t", i))):
+                        if n == 4 and not line.startswith("CALL\tfunc"):
+                            continue
+                        out.append(Case(line, "twofaults", {"first": nm}))
+    # ... and a tensor parameter in front of the tuple: its fault (revealed by its own repeated name) comes before any element's
+    for (s2, v2) in str_bad:
+        out.append(Case(f"CALL\tfunc:pos\t-\t\tP|x|S|FloatTensor,0,b b|T,0:float32,2.3\tP|t|T|{ok_el[0]};{s2}|U:{ok_el[1].replace('3.2', '2.2')};{v2}", "twofaults", {"first": "x"}))
     # the very same array OBJECT at two annotated positions (impl.make_tensor hands out one object per dtype and shape): the
     # second occurrence is checked against its own annotation like any other value
     same = "T,0:float32,3.2"
@@ -145,6 +171,15 @@ def judge(case, impl_out, spec):
                 return "a conforming call through a hint that shares its annotation object with another hint is rejected: " + part
             if bad and not part.startswith("calls=1 reject shape"):
                 return "a violating tuple element was not reported as a shape error of its position: " + part
+        return None
+    if case.tag == "twofaults":
+        end = callcommon.end_of(impl_out)
+        want = case.meta.get("first") or ""
+        if not end.startswith("reject"):
+            return "two tuple elements violate their annotations, but: " + impl_out
+        named = end.split(" tensor=")[1].split(" ")[0] if " tensor=" in end else "?"
+        if want and named != want:
+            return f"two elements violate; the one at the earlier position is {want}, but the report names {named}: elements are not checked position by position in order ({end})"
         return None
     c = ctxcommon.ctx_of(case)
     if c is None:
